@@ -15,6 +15,26 @@ CHECKS = {
             "executed against the real catalogue; complete finite space, so the right level is exhaustive exploration.",
             BASE_NOTE + "Codes computed at run time with no string constant reaching them are covered only by the monitor.",
             "4/C26", False),
+    "C13": ("model_checking", "explicit-state check of an abstract table store driven by the real DAG schedule, every model trace replayed against run() through a connection proxy",
+            "Every dependency graph within the bound (x persistence labelling x return_only_persistent) is explored; the abstract "
+            "store's invariants are checked on every state and the real catalogue trace of run() must equal the model trace.",
+            BASE_NOTE + "Statement reads come from the generator; catalogue events are observed at the DuckDB connection.", "4/C13", True),
+    "C16": ("fault_enumeration", "fault injection at every event of the connection-proxy trace + explicit-state search over histories of failing runs",
+            "Every failure point (each load step, statement, fetch, write, release) of each subject script x fault alphabet x "
+            "{in-memory, file-backed}, configuration failures, and all sequences of <= 3 failing runs followed by probes.",
+            BASE_NOTE + "Faults are injected at DuckDB connection calls; residue = temp dir entries, db file, open connection, fds, probe outcome.", "4/C16", True),
+    "C17": ("model_checking", "stateless schedule enumeration of real threads with iterative preemption bounding (hand-written cooperative scheduler)",
+            "All schedules with <= 1 (quick) / <= 2 (thorough) preemptions of every pair of an 11-call alphabet (triples in thorough) at the "
+            "engine's shared-state switch points; each call's outcome must equal its outcome alone in a fresh process.",
+            BASE_NOTE + "Interleavings only at declared switch points (sys.settrace call events + parser_lock); parse-tree lifetime modelled by generation check.", "4/C17", True),
+    "C23": ("exploration", "exhaustive enumeration of token sequences / character strings / token mutations / nesting ladders / parse histories",
+            "Bounded-exhaustive input spaces through the recogniser on the repository's ATN and through create_ast, plus all parse "
+            "histories of length <= 3 compared with a fresh process.",
+            BASE_NOTE + "Memory safety of the compiled extension is out of reach (DESIGN 7).", "4/C23", True),
+    "C31": ("model_checking", "the repository's parser ATN interpreted in SLL and LL by ANTLR's own prediction code, compared on exhaustively generated inputs",
+            "SLL vs LL verdict, first error and parse tree compared on every corpus script, one shortest sentence through every ATN "
+            "transition, all their single-token mutations and all token sequences up to length k.",
+            BASE_NOTE + "Java runtime 4.11.1 stands for the C++ runtime 4.13.2.", "4/C31", True),
 }
 
 NOT_APPLICABLE = {}
